@@ -3,6 +3,9 @@ package checks
 import (
 	"bytes"
 	"fmt"
+	"os"
+	"strings"
+	"sync/atomic"
 
 	"verif/internal/adapt"
 	"verif/internal/core"
@@ -56,7 +59,7 @@ func c01Check(r *core.Run, worker int, p adapt.Parser, in *Input) bool {
 	// history: any exported call on the parsed value (every method x the argument menu; the three
 	// documented mutators excluded) between parsing and serialising leaves the serialisation alone.
 	// Done for base encodings (the mutated ones differ from a base in one field only).
-	if in.Class == "base" && res.Val != nil {
+	if strings.HasPrefix(in.Class, "base") && res.Val != nil {
 		core.Guard(func() { adapt.CallMethods(res.Val, true, mutatorNames, func(adapt.CallOutcome) {}) })
 		var ser2 []byte
 		var err2 error
@@ -112,6 +115,40 @@ func runC01(r *core.Run) {
 		}
 	})
 	lifetimesC01(r)
+	c01DebugLogging(r)
+}
+
+// c01DebugLogging: the round-trip oracle under the other setting of the logging environment {silent, debug}: code
+// gated on the log level (diagnostics that format - and may append to, re-slice or sort - what they log) runs only
+// then. Every base within one deviation (thorough: two) through every parser of its family; output discarded.
+func c01DebugLogging(r *core.Run) {
+	c20SetLogging(true)
+	defer c20SetLogging(false)
+	was, had := os.LookupEnv("VERIF_WORKERS")
+	os.Setenv("VERIF_WORKERS", "2") // logrus serialises messages behind one mutex
+	defer func() {
+		if had {
+			os.Setenv("VERIF_WORKERS", was)
+		} else {
+			os.Unsetenv("VERIF_WORKERS")
+		}
+	}()
+	o := enumOpts{BaseBound: 1, MutateBound: -1}
+	if !r.Quick() {
+		o.BaseBound = 2
+	}
+	var n int64
+	enumerateInputs(r, o, func(worker int, in *Input) {
+		d := *in
+		d.Class = in.Class + "[debug-logging]"
+		for _, fam := range parserFamiliesFor(in.Family, in.Aux) {
+			for _, p := range adapt.ByFamily(fam) {
+				c01Check(r, worker, p, &d)
+				atomic.AddInt64(&n, 1)
+			}
+		}
+	})
+	r.Note("debug_logging_pass_parses", n)
 }
 
 func replayC01(r *core.Run, c core.Case) {
